@@ -141,6 +141,7 @@ def shards(tier, seed):
     sh = [("status", k) for k in kinds()] + [("generic", tr) for tr in ("connected", "ucmm", "ucsend")] + [("multi", op) for op in ("read", "write")]
     sh += [("encap", "x"), ("lifecycle", "x")]
     sh += [("mutate", k) for k in MUT_KINDS]
+    sh += [("status", "readfrag-middle", "debuglog"), ("status", "write", "debuglog"), ("multi", "read", "debuglog"), ("encap", "x", "debuglog"), ("mutate", "read-multi", "debuglog")]
     return sh
 
 
